@@ -612,10 +612,11 @@ def _norm(v):
 
 # ------------------------------------------------------------------------ C17
 @contract('C17', 'trilist_representation_independence', level='bounded', native_samples=2,
-          configs=[dict(grid=g, d=d) for g in ((3, 3), (5, 5), (2, 9)) for d in (2, 3)],
+          configs=[dict(grid=g, d=d, winding=w) for g in ((3, 3), (5, 5), (2, 9)) for d in (2, 3) for w in ('consistent', 'mixed')] +
+          [dict(grid=(3, 3), d=d, winding=w) for d in (2, 3) for w in ('non-manifold-interior', 'closed-surface')],
           functions=['menpo.shape.mesh.base:TriMesh.unique_edge_indices', 'menpo.shape.mesh.base:TriMesh.boundary_tri_index', 'menpo.shape.mesh.base:TriMesh.from_mask',
                      'menpo.shape.mesh.base:TriMesh.tri_areas', 'menpo.shape.mesh.base:TriMesh.edge_indices', 'menpo.shape.mesh.base:TriMesh.vertex_normals'])
-def c17_trilist_representation(ctx, grid, d):
+def c17_trilist_representation(ctx, grid, d, winding='consistent'):
     """a triangle list given in any integer dtype wide enough for the vertex
     indices (int8 ... uint64, list of lists, Fortran order, read-only) gives the
     mesh queries and maskings of the int64 triangle list; unique edges are each
@@ -627,6 +628,20 @@ def c17_trilist_representation(ctx, grid, d):
     if d == 3:
         pts = np.hstack([pts, rs.rand(len(pts), 1)])
     tl = np.asarray(base.trilist).astype(np.int64)
+    if winding == 'mixed':
+        # an arbitrary triangle list: some triangles listed the other way round, the list shuffled, a fan added on one edge (non-manifold)
+        flip = rs.rand(len(tl)) < 0.4
+        tl[flip] = tl[flip][:, [0, 2, 1]]
+        tl = tl[rs.permutation(len(tl))]
+        extra = [int(tl[0][0]), int(tl[0][1]), len(pts) - 1]
+        if len(set(extra)) == 3 and not any(set(extra) == set(map(int, t)) for t in tl):
+            tl = np.vstack([tl, [extra]])
+    if winding == 'non-manifold-interior':
+        # triangle 4 has every edge shared, one of them (0,1) by three triangles: it owns no unshared edge
+        tl = np.array([[0, 1, 3], [0, 1, 4], [1, 2, 5], [2, 0, 6], [0, 1, 2]], dtype=np.int64)
+    if winding == 'closed-surface':
+        # a tetrahedron-like closed list: every edge shared by exactly two triangles, no boundary at all
+        tl = np.array([[0, 1, 2], [0, 1, 3], [1, 2, 3], [2, 0, 3]], dtype=np.int64)
     n = len(pts)
     ref = S.TriMesh(pts.copy(), trilist=tl.copy())
     und = sorted({tuple(sorted((int(t[i]), int(t[(i + 1) % 3])))) for t in tl for i in range(3)})
@@ -1286,3 +1301,110 @@ def c09_apply_history(ctx, d):
         ctx.check_true(name + '/argument-not-modified', np.array_equal(x, x0))
         if st is not None:
             compare_states(ctx, name + '/transform-state-unchanged', state_of(t), st)
+
+
+# ------------------------------------------------ C05: rotation vectors (bounded)
+@contract('C05', 'rotation_vector_roundtrip', level='bounded', native_samples=40, configs=[dict(cls=c) for c in ('Rotation', 'AlignmentRotation')],
+          functions=['menpo.transform.homogeneous.rotation:Rotation._as_vector', 'menpo.transform.homogeneous.rotation:Rotation._from_vector_inplace'])
+def c05_rotation_vector(ctx, cls):
+    """3-D rotations: from_vector(v).as_vector() == v for every canonical unit
+    quaternion v (scalar part > 0), whatever the signs of its other components;
+    the non-canonical -v gives the same rotation and is reported canonically;
+    as_vector() is read-only and has 4 entries."""
+    T, S = B.menpo_mods()
+    rs = ctx.nprng
+    q = rs.randn(4)
+    q /= np.linalg.norm(q)
+    if q[0] < 0:
+        q = -q
+    if q[0] < 0.05:
+        q[0] += 0.5
+        q /= np.linalg.norm(q)
+    # make sure every sign pattern of (x, y, z) turns up over the samples
+    pattern = rs.randint(0, 8)
+    q[1:] = np.abs(q[1:]) * np.array([1.0 if (pattern >> k) & 1 else -1.0 for k in range(3)])
+    if cls == 'Rotation':
+        t = T.Rotation.init_identity(3)
+    else:
+        src = rs.randn(5, 3)
+        t = T.AlignmentRotation(S.PointCloud(src), S.PointCloud(src.dot(T.Rotation.init_from_3d_ccw_angle_around_z(25).linear_component.T)))
+    h0 = np.array(t.h_matrix, copy=True)
+    r = t.from_vector(q)
+    v = r.as_vector()
+    close(ctx, 'from_vector(v).as_vector()==v (canonical v)', v, q, 1e-7)
+    ctx.check_true('as_vector/read-only-with-4-entries', v.shape == (4,) and not v.flags.writeable)
+    close(ctx, 'receiver-unchanged', t.h_matrix, h0, 0)
+    r2 = t.from_vector(-q)
+    close(ctx, 'from_vector(-v)/same-rotation', r2.h_matrix, r.h_matrix, 1e-9)
+    close(ctx, 'from_vector(-v).as_vector()==v (reported canonically)', r2.as_vector(), q, 1e-7)
+    close(ctx, 'from_vector(as_vector())/same-rotation', r.from_vector(r.as_vector()).h_matrix, r.h_matrix, 1e-9)
+    if cls == 'AlignmentRotation':
+        close(ctx, 'alignment/target==aligned-source', r.target.points, r.apply(r.source.points), 1e-9)
+
+
+# ------------------------------------- C02: dimension-changing homogeneous maps
+@contract('C02', 'non_square_homogeneous', level='bounded', native_samples=3, configs=[dict(shape=s, kind=k) for s in ('PointCloud', 'TriMesh', 'array')
+                                                                                       for k in ('3d->2d', '2d->3d', '3d->3d', '2d->2d')],
+          functions=['menpo.transform.homogeneous.base:Homogeneous._apply', 'menpo.transform.homogeneous.base:Homogeneous.n_dims_output'])
+def c02_non_square_homogeneous(ctx, shape, kind):
+    """a plain Homogeneous transform need not be square (projection 3-D -> 2-D,
+    embedding 2-D -> 3-D): points and every landmark group are moved by the
+    homogeneous map with n_dims_output rows, the input stays untouched."""
+    T, S = B.menpo_mods()
+    rs = ctx.nprng
+    di, do = {'3d->2d': (3, 2), '2d->3d': (2, 3), '3d->3d': (3, 3), '2d->2d': (2, 2)}[kind]
+    H = rs.randn(do + 1, di + 1)
+    H[-1, :di] = 0.05 * rs.randn(di)
+    H[-1, -1] = 1.0
+    t = T.Homogeneous(H.copy())
+    P = rs.randn(5, di)
+    L = rs.randn(3, di)
+
+    def ref(X):
+        Y = np.hstack([X, np.ones((len(X), 1))]).dot(H.T)
+        return Y[:, :do] / Y[:, do:]
+    ctx.check_true('n_dims/n_dims_output', t.n_dims == di and t.n_dims_output == do)
+    if shape == 'array':
+        close(ctx, 'array/points', t.apply(P.copy()), ref(P), 1e-9)
+        close(ctx, 'array/batched', t.apply(P.copy(), batch_size=2), ref(P), 1e-9)
+        return
+    if shape == 'TriMesh' and do != di:
+        shape = 'PointCloud'            # (a mesh keeps its class; only same-dimension maps are applied to it)
+    obj = S.PointCloud(P.copy()) if shape == 'PointCloud' else S.TriMesh(P.copy(), trilist=np.array([[0, 1, 2], [2, 3, 4]]))
+    obj.landmarks['g'] = S.PointCloud(L.copy())
+    out = t.apply(obj)
+    close(ctx, 'shape/points', out.points, ref(P), 1e-9)
+    close(ctx, 'shape/landmarks-moved-by-the-same-map', out.landmarks['g'].points, ref(L), 1e-9)
+    ctx.check_true('shape/class-kept', type(out) is type(obj))
+    close(ctx, 'input/points-unchanged', obj.points, P, 0)
+    close(ctx, 'input/landmarks-unchanged', obj.landmarks['g'].points, L, 0)
+    close(ctx, 'transform-unchanged', t.h_matrix, H, 0)
+
+
+# --------------------------------------- C10: feature counts at block boundaries
+@contract('C10', 'wide_data_block_boundaries', level='bounded', native_samples=1,
+          configs=[dict(d=d, centre=c) for d in (999, 1000, 1001, 1002, 2001) for c in (True, False)],
+          functions=['menpo.math.linalg:dot_inplace_right', 'menpo.math.linalg:dot_inplace_left', 'menpo.math.decomposition:pca'])
+def c10_block_boundaries(ctx, d, centre):
+    """the in-place wide-data path of pca() works through the feature axis in
+    blocks of 1000: the PCA identities hold for feature counts just below, at
+    and just above a block boundary, and equal the out-of-place result."""
+    from menpo.model import PCAVectorModel
+    from menpo.math import pca
+    rs = ctx.nprng
+    n = 6
+    X = rs.randn(n, d) * np.linspace(2.0, 0.5, d) + rs.randn(d)
+    m = PCAVectorModel(X.copy(), centre=centre)
+    C, ev = m._components, m._eigenvalues
+    k = C.shape[0]
+    ctx.check_true('n_components==rank-of-the-data', k == n - (1 if centre else 0), str(k))
+    close(ctx, 'orthonormal-components', C.dot(C.T), np.eye(k), 1e-8)
+    mean = X.mean(0) if centre else np.zeros(d)
+    Xc = X - mean
+    close(ctx, 'eigenvalues==variance-along-components', ev, (Xc.dot(C.T) ** 2).sum(0) / (n - 1), 1e-8)
+    close(ctx, 'reconstructs-training-samples', mean + Xc.dot(C.T).dot(C), X, 1e-7)
+    U, l, mu = pca(X.copy(), centre=centre, inplace=False)
+    close(ctx, 'in-place==out-of-place/eigenvalues', ev, l, 1e-9)
+    close(ctx, 'in-place==out-of-place/subspace', C.T.dot(C), U.T.dot(U), 1e-7)
+    w = np.linspace(1, 2, k)
+    close(ctx, 'project(instance(w))==w', m.project(m.instance(w)), w, 1e-8)
